@@ -14,6 +14,21 @@ import (
 // Parser can parse lua statements or expressions
 type Parser struct {
 	scanner Scanner
+
+	// Current depth of nested statements and expressions.  The parser is
+	// recursive, so it is limited to maxSyntaxDepth in order to avoid
+	// irrecoverable Go stack overflows on deeply nested input.
+	depth int
+}
+
+// The maximum depth of nested statements and expressions in a chunk.
+const maxSyntaxDepth = 1000
+
+func (p *Parser) enter(t *token.Token) {
+	p.depth++
+	if p.depth > maxSyntaxDepth {
+		panic(Error{Got: t, Message: "chunk has too many syntax levels"})
+	}
 }
 
 type Scanner interface {
@@ -66,7 +81,7 @@ func ParseExp(scanner Scanner) (exp ast.ExpNode, err error) {
 			}
 		}
 	}()
-	parser := &Parser{scanner}
+	parser := &Parser{scanner: scanner}
 	var t *token.Token
 	exp, t = parser.Exp(parser.Scan())
 	expectType(t, token.EOF, "<eof>")
@@ -86,7 +101,7 @@ func ParseChunk(scanner Scanner) (stat ast.BlockStat, err error) {
 			}
 		}
 	}()
-	parser := &Parser{scanner}
+	parser := &Parser{scanner: scanner}
 	var t *token.Token
 	stat, t = parser.Block(parser.Scan())
 	expectType(t, token.EOF, "<eof>")
@@ -104,6 +119,13 @@ func (p *Parser) Scan() *token.Token {
 
 // Stat parses any statement.
 func (p *Parser) Stat(t *token.Token) (ast.Stat, *token.Token) {
+	p.enter(t)
+	stat, next := p.stat(t)
+	p.depth--
+	return stat, next
+}
+
+func (p *Parser) stat(t *token.Token) (ast.Stat, *token.Token) {
 	switch t.Type {
 	case token.SgSemicolon:
 		return ast.NewEmptyStat(t), p.Scan()
@@ -364,6 +386,7 @@ func (p *Parser) Exp(t *token.Token) (ast.ExpNode, *token.Token) {
 // prefix expression or a power operation (right associatively composed). In
 // other words, any expression that doesn't contain a binary operator.
 func (p *Parser) ShortExp(t *token.Token) (ast.ExpNode, *token.Token) {
+	p.enter(t)
 	var exp ast.ExpNode
 	switch t.Type {
 	case token.KwNil:
@@ -401,6 +424,7 @@ func (p *Parser) ShortExp(t *token.Token) (ast.ExpNode, *token.Token) {
 		pow, t = p.ShortExp(p.Scan())
 		exp = ast.NewBinOp(exp, ops.OpPow, t, pow)
 	}
+	p.depth--
 	return exp, t
 }
 
